@@ -39,6 +39,19 @@ def run_once(exe, args, seed, workdir, tag, replay=None, switch_den=None, timeou
             "out": out[-2000:], "err": err[-800:], "log": log, "sched": sched}
 
 
+def confirm_by_replay(exe, args, seed, r, work, tag, tries=3):
+    """does the schedule recorded by the failing run `r` fail again when replayed?"""
+    if not os.path.exists(r["sched"]):
+        return True          # nothing to replay with: keep the failure
+    keep = r["sched"] + ".failing"
+    shutil.copy(r["sched"], keep)
+    for k in range(tries):
+        r2 = run_once(exe, args, seed, work, "%s_%d" % (tag, k), replay=keep, timeout=60)
+        if judge(r2)[0] == "violation":
+            return True
+    return False
+
+
 def judge(r):
     """(kind, text): kind in ok | violation | harness"""
     if r["rc"] == 2 or "HARNESS-ERROR" in r["out"]:
@@ -128,6 +141,13 @@ def campaign(res, pid, prog, variants, nseeds, drivers, workers_note="", extra_f
                 raise RuntimeError(text)
             continue
         if kind == "violation":
+            # a controlled run is deterministic: the recorded schedule must reproduce the failure, otherwise there is
+            # no replayable input and nothing is reported (the failure is kept in the evidence notes)
+            if rp is None and not confirm_by_replay(exe, args, seed, r, work, "c%d" % i):
+                res.notes.setdefault("unreproduced_failures", []).append("%s %s seed=%s: %s" % (prog, " ".join(map(str, args)), seed, text[:160]))
+                if len(res.notes["unreproduced_failures"]) < 3:
+                    continue
+                text += " [the recorded schedule does not reproduce it, but this is the third such failure of this campaign: %s]" % "; ".join(res.notes["unreproduced_failures"][:2])
             d = save_replay(pid, r, [prog] + args, seed)
             res.violations.append((d, True, "%s %s seed=%s: %s" % (prog, " ".join(map(str, args)), seed, text)))
             break
@@ -191,6 +211,9 @@ def search_more(res, pid, prog, variants, nseeds):
             dem = 5 + rng.below(1000)
         r = run_once(exe, args, seed, work, "s%d" % (i % 50), switch_den=[2, 8, 3, 8][i % 4], demote_at=dem, timeout=60)
         kind, text = judge(r)
+        if kind == "violation" and not confirm_by_replay(exe, args, seed, r, work, "sc%d" % (i % 50)):
+            res.notes.setdefault("unreproduced_failures", []).append("%s %s seed=%s: %s" % (prog, " ".join(map(str, args)), seed, text[:160]))
+            continue
         if kind == "violation":
             d = save_replay(pid, r, [prog] + args, seed)
             with open(os.path.join(d, "args.txt"), "a") as f:
